@@ -111,6 +111,11 @@ func GenPMT(r *gen.Rand, nStreams int) PMT {
 // GenOtherSection draws a complete non-PMT section (table id not 0x02 / 0xFF).
 func GenOtherSection(r *gen.Rand) []byte {
 	id := r.PickByte([]byte{0x00, 0x01, 0x03, 0x42, 0x4e, 0x70, 0xc8, 0xfc, 0xfe})
+	if r.Chance(6) {
+		// a short private section (section_syntax_indicator 0: no CRC_32 is required), down to section_length 0
+		n := r.Intn(4)
+		return append([]byte{r.PickByte([]byte{0x80, 0x90, 0xc0, 0xfe}), 0x30 | byte(r.Intn(2))<<6, byte(n)}, r.Bytes(n)...)
+	}
 	body := r.Bytes(r.Intn(40))
 	flags := byte(0x30) | byte(r.Intn(4))<<6
 	sl := len(body) + 4
